@@ -55,6 +55,7 @@ const (
 var xpNames = []string{"forward", "swallow", "close"}
 
 type faultEvent struct{}
+type faultEvent2 struct{}
 
 //go:norace
 func makePanicValue(kind int) (val interface{}, raise func()) {
@@ -143,6 +144,23 @@ func runC07(e *Env) {
 			raise()
 		}
 	}
+	// optional second, concurrent fault (only when the policies keep the channel open): a user event raised from
+	// another task panics in handler pos2 with its own error value; it must be routed like the first one.
+	firstStop := -1
+	for i, p := range pl.Policy {
+		if p != xpForward {
+			firstStop = i
+			break
+		}
+	}
+	second := pl.State == 0 && firstStop >= 0 && pl.Policy[firstStop] == xpSwallow && pl.PKind != pvNetError && e.P(2) == 1
+	pos2 := 0
+	if second {
+		pos2 = e.P(pl.Handlers)
+	}
+	err2 := errors.New("second injected handler error")
+	armed2 := second
+	var fired2 int64
 	probes := make([]*Probe, pl.Handlers)
 	var hs []netty.Handler
 	if pl.Entry == enIdleTimer {
@@ -175,6 +193,19 @@ func runC07(e *Env) {
 				}
 			}
 		}
+		if second && i == pos2 {
+			prev := p.OnEvent
+			p.OnEvent = func(ctx netty.EventContext, ev netty.Event) {
+				if _, ok := ev.(faultEvent2); ok && armed2 {
+					armed2 = false
+					fired2 = e.Sim.NextEv()
+					panic(err2)
+				}
+				if prev != nil {
+					prev(ctx, ev)
+				}
+			}
+		}
 		probes[i] = p
 		hs = append(hs, p)
 	}
@@ -196,6 +227,12 @@ func runC07(e *Env) {
 		}
 		if pl.State == 1 {
 			e.Go("closer", func() { e.Step(); rig.Ch.Close(errSentinel) })
+		}
+		if second {
+			e.Go("second-fault", func() {
+				e.Step()
+				call(func() { rig.Ch.Trigger(faultEvent2{}) })
+			})
 		}
 		idxOf := func(p *Probe) int { return rig.Pl.IndexOf(func(h netty.Handler) bool { return h == netty.Handler(p) }) }
 		switch pl.Entry {
@@ -261,6 +298,24 @@ func runC07(e *Env) {
 			}
 			if stop < 0 && pl.Policy[i] != xpForward {
 				stop = i
+			}
+		}
+		if second && fired2 != 0 {
+			e.Count("second_concurrent_fault_fired", 1)
+			for i, p := range probes {
+				n := 0
+				for _, d := range p.Of("exception") {
+					if d.Err == err2 {
+						n++
+					}
+				}
+				want := 0
+				if i <= firstStop {
+					want = 1
+				}
+				if n != want {
+					e.Violate("routed-once-in-order", "second-concurrent-fault", "a second panic raised from another task while the first exception was being handled: exception handler %d saw it %d times, expected %d (policies %v)", i, n, want, pol)
+				}
 			}
 		}
 		// the last probe of the rig is the transport reader: it forwards exceptions to the tail
